@@ -347,9 +347,10 @@ func (c *XAConn) Commit(ctx context.Context) error {
 }
 
 func (c *XAConn) commitErrorHandle(ctx context.Context) error {
-	var err error
-	if err = c.XaRollback(ctx, c.xaBranchXid); err != nil {
-		err = fmt.Errorf("failed to report XA branch commit-failure xid:%s, err:%w", c.txCtx.XID, err)
+	// the branch could not be ended / prepared: that is an error for the caller even when the rollback works
+	err := fmt.Errorf("failed to end and prepare XA branch xid:%s, the branch is rolled back", c.txCtx.XID)
+	if rollbackErr := c.XaRollback(ctx, c.xaBranchXid); rollbackErr != nil {
+		err = fmt.Errorf("failed to report XA branch commit-failure xid:%s, err:%w", c.txCtx.XID, rollbackErr)
 	}
 	c.cleanXABranchContext()
 	return err
